@@ -238,14 +238,12 @@ def model(ctx):
     return n, problems
 
 
-_cache = {}
-
-
 def report(ctx, rule):
-    key = id(ctx.repo)
-    if key not in _cache:
-        _cache[key] = model(ctx)
-    n, problems = _cache[key]
+    # one model run per check run (never keyed by id(): ids are reused after garbage collection)
+    memo = ctx.__dict__.setdefault('_model_memo', {})
+    if 'listproxy_model' not in memo:
+        memo['listproxy_model'] = model(ctx)
+    n, problems = memo['listproxy_model']
     ctx.abstract_cases += n
     cls = ctx.repo.cls(LP)
     if not problems:
